@@ -584,6 +584,53 @@ func init() {
 					}
 				}
 			}
+			// permitted ranges next to excluded ranges (nested in either direction, sharing the first address, disjoint): the
+			// lint is about what is permitted; an exclusion of a part does not make the rest of a reserved range acceptable
+			type pe struct{ p, e string }
+			for _, c2 := range []pe{{"10.0.0.0/8", "10.0.0.0/24"}, {"10.0.0.0/8", "10.0.0.0/8"}, {"10.0.0.0/24", "10.0.0.0/8"}, {"8.0.0.0/6", "8.0.0.0/8"}, {"8.0.0.0/6", "10.0.0.0/8"}, {"8.8.8.0/24", "8.8.8.0/25"},
+				{"8.8.8.0/24", "10.0.0.0/8"}, {"2001:db8::/32", "2001:db8::/64"}, {"2000::/3", "2000::/4"}, {"2606:4700::/32", "2606:4700::/48"}, {"192.168.0.0/16", "192.168.0.0/17"}, {"0.0.0.0/0", "0.0.0.0/1"}} {
+				_, pn, e1 := net.ParseCIDR(c2.p)
+				_, en, e2 := net.ParseCIDR(c2.e)
+				if e1 != nil || e2 != nil {
+					continue
+				}
+				enc := func(n *net.IPNet) []byte {
+					ip := n.IP
+					if ip4 := ip.To4(); ip4 != nil && len(n.Mask) == 4 {
+						ip = ip4
+					}
+					return encTLV(0x30, encTLV(0x87, append(append([]byte{}, ip...), n.Mask...)))
+				}
+				status := map[bool]int{}
+				for _, withExcluded := range []bool{false, true} {
+					tmpl := leafTemplate()
+					tmpl.IsCA, tmpl.KeyUsage, tmpl.BasicConstraintsValid = true, stdx509.KeyUsageCertSign, true
+					val := encTLV(0xa0, enc(pn))
+					if withExcluded {
+						val = concat(val, encTLV(0xa1, enc(en)))
+					}
+					tmpl.ExtraExtensions = append(tmpl.ExtraExtensions, pkix.Extension{Id: asn1.ObjectIdentifier{2, 5, 29, 30}, Critical: true, Value: encTLV(0x30, val)})
+					der, c, err := issue(tmpl, nil)
+					if err != nil || len(c.PermittedIPAddresses) != 1 {
+						continue
+					}
+					ncRuns++
+					s3 := 0
+					if r := zlint.LintCertificateEx(c, fr).Results["e_ext_nc_intersects_reserved_ip"]; r != nil {
+						s3 = int(r.Status)
+					}
+					status[withExcluded] = s3
+					if a, ok := fromIPNet(&c.PermittedIPAddresses[0].Data); ok {
+						out.Add("lints", Case{Coq: fmt.Sprintf("(%s, %s, %s, (%s, %s, %s))", cqTyped(nil, "addr"), cqTyped(nil, "addr"), cqTyped([]string{a.Coq()}, "net"), cqZ(3), cqZ(3), cqZ(int64(s3))),
+							Tag: fmt.Sprintf("nc-excl-%v-%d", withExcluded, s3), Desc: map[string]interface{}{"permitted": c2.p, "excluded": map[bool]string{true: c2.e, false: ""}[withExcluded], "status": s3, "der": hexs(der)}})
+					}
+				}
+				if a, okA := status[false]; okA {
+					if b, okB := status[true]; okB && a != b {
+						out.Violate("C19|nc-lint-excluded:"+c2.p, fmt.Sprintf("e_ext_nc_intersects_reserved_ip reports %d on permitted %s and %d when %s is excluded as well", a, c2.p, b, c2.e), map[string]interface{}{"permitted": c2.p, "excluded": c2.e}, a, b)
+					}
+				}
+			}
 			out.Stats["nc_spelling_runs"] = ncRuns
 		}
 		return out.Emit()
